@@ -189,6 +189,8 @@ def rand_spec_desc(rng, seq, kinds=None):
     if k in ("change_obj",):
         if rng.random() < 0.3:
             idx = sorted(rng.sample(range(n), rng.randint(1, min(n, 6))))
+            if rng.random() < 0.4:
+                rng.shuffle(idx)
             return dict(kind="change_obj", location=None, indices=idx, amount_percent=rng.choice([None, None, 50]), boost=1)
         return dict(kind="change_obj", location=None if rng.random() < 0.5 else problems.rand_loc(rng, n, 2, strands=(1, 0)),
                     amount_percent=rng.choice([None, None, 50]), boost=1)
